@@ -154,7 +154,7 @@ def run(ctx):
     ctx.trusted += [
         "translator vh-translate/matchers.go (go/ast: order of registerLock and sync.Map operations in the six register functions)",
         "deterministic scheduler harness/sched + verif yield hooks (counter, register lock/store, emit lock/index); between two yield points a goroutine runs alone",
-        "mutual exclusion: the critical section of registerLock (LoadAndDelete; Store) is one atom of the proved machine; the lock-granular machine is checked against it exhaustively for 1 and 2 exchanges (theorem C10_lock_granular_small) and against the real code schedule by schedule",
+        "the lock-granular machine (look-up and store as separate atoms under registerLock) is the proved one (C10_items_lock_granular) and the one the real schedules are replayed in",
         "modelled, not verified: sync.Map and sync.Mutex linearizable; partial w.r.t. the Go memory model (sequentially consistent interleavings of the hooked steps only); Kafka's polling matcher and the AMQP matcher share the http/redis register code shape (AMQP) or are request-store/response-poll (Kafka) and are exercised in their families",
     ]
     return ctx.finish(
